@@ -477,7 +477,46 @@ class Interp:
             return VB(z3.Extract(i, i, base.v) == 1, base.okl if i < base.lw else base.ok)
         raise Unsupported("subscript base")
 
+    def fold(s, n):
+        """value of a purely literal sub-tree (the front-end folds these before typing them), else None"""
+        import operator as op
+
+        if isinstance(n, ast.Constant) and isinstance(n.value, (bool, int, float)):
+            return n.value
+        if isinstance(n, ast.UnaryOp):
+            v = s.fold(n.operand)
+            f = {ast.UAdd: op.pos, ast.USub: op.neg, ast.Not: op.not_, ast.Invert: op.invert}.get(type(n.op))
+            if v is not None and f:
+                return f(v)
+        if isinstance(n, ast.BinOp):
+            a, b = s.fold(n.left), s.fold(n.right)
+            f = {ast.Add: op.add, ast.Sub: op.sub, ast.Mult: op.mul, ast.Mod: op.mod, ast.Pow: op.pow, ast.LShift: op.lshift, ast.RShift: op.rshift, ast.BitOr: op.or_, ast.BitXor: op.xor, ast.BitAnd: op.and_, ast.FloorDiv: op.floordiv, ast.Div: op.truediv}.get(type(n.op))
+            if a is not None and b is not None and f:
+                try:
+                    return f(a, b)
+                except Exception:
+                    return None
+        if isinstance(n, ast.Compare) and len(n.ops) == 1:
+            a, b = s.fold(n.left), s.fold(n.comparators[0])
+            f = {ast.Eq: op.eq, ast.NotEq: op.ne, ast.Lt: op.lt, ast.LtE: op.le, ast.Gt: op.gt, ast.GtE: op.ge}.get(type(n.ops[0]))
+            if a is not None and b is not None and f:
+                return f(a, b)
+        if isinstance(n, ast.IfExp):
+            c = s.fold(n.test)
+            if c is not None:
+                return s.fold(n.body if c else n.orelse)
+        return None
+
     def ex(s, n, env):
+        if not isinstance(n, ast.Constant) and isinstance(n, (ast.BinOp, ast.UnaryOp, ast.Compare, ast.IfExp)):
+            c = s.fold(n)
+            if c is not None:
+                if isinstance(c, bool):
+                    return VB(T if c else F)
+                if isinstance(c, int):
+                    return s.cint(c)
+                if isinstance(c, float):
+                    return s.cfloat(c)
         if isinstance(n, ast.Name):
             if n.id in env:
                 return env[n.id]
